@@ -27,6 +27,8 @@ Monitors
            a timeout after virtual time passed, a pending indicate call is cancelled; the NEXT
            indication on that bearer must be on the wire as an indication, confirmed, the call must
            complete (keys carry the history class after-timeout / after-cancel)
+           ; likewise a client read whose response is withheld at the client's host boundary (times
+           out / is cancelled) is followed by further requests on that bearer, judged as usual
   term     a hand-driven adversarial ATT server (RawPeer) answers every discovery procedure
            with non-progressing responses; requests are counted on the wire
 """
@@ -81,7 +83,8 @@ MIN_EVENTS = {
               'bearer_read_checks_eatt_differs_from_fixed': 250, 'bearer_read_read': 120, 'bearer_read_blob': 100,
               'bearer_read_by_type': 100, 'bearer_read_multiple': 80, 'bearer_read_multiple_variable': 80,
               'failed_indications': 70, 'unconfirmed_indications_on_wire': 70, 'indications_after_failed': 100,
-              'indications_after_timeout': 70, 'indications_after_cancel': 25},
+              'indications_after_timeout': 70, 'indications_after_cancel': 25,
+              'bearer_read_find_by_type_value': 60, 'failed_client_requests': 40, 'requests_after_failed': 80},
     'thorough': {'tree_checks': 90000, 'read_checks': 100000, 'read_checks_long': 24000, 'write_checks': 18000,
                  'notif_api_calls': 24000, 'wire_notifications': 12000, 'wire_indications': 9000,
                  'confirm_order_checks': 9000, 'truncation_checks': 21000, 'callback_checks': 21000,
@@ -90,7 +93,8 @@ MIN_EVENTS = {
                  'bearer_read_checks_eatt_differs_from_fixed': 7500, 'bearer_read_read': 3600, 'bearer_read_blob': 3000,
                  'bearer_read_by_type': 3000, 'bearer_read_multiple': 2400, 'bearer_read_multiple_variable': 2400,
                  'failed_indications': 2100, 'unconfirmed_indications_on_wire': 2100, 'indications_after_failed': 3000,
-                 'indications_after_timeout': 2100, 'indications_after_cancel': 750},
+                 'indications_after_timeout': 2100, 'indications_after_cancel': 750,
+                 'bearer_read_find_by_type_value': 1800, 'failed_client_requests': 1200, 'requests_after_failed': 2400},
 }
 CASE_TIMEOUT = 600
 
